@@ -103,6 +103,7 @@ const (
 	opSleep
 	opExit
 	opTrySend
+	opStep // a local instruction that is a step of its own: atomic operation, load/store of a racy cell
 )
 
 type arm struct {
@@ -219,6 +220,7 @@ type bmcSys struct {
 	outcomes []*outcome
 	trans    []*btrans
 	allocs   map[string]*Object
+	racy     map[string]bool // cells accessed by several library goroutines, written after set-up: loads/stores are steps of their own
 	finals   map[string]*term.T
 	invars   map[string]*term.T
 	quiesc   *term.T
@@ -384,7 +386,18 @@ func (b *bmcSys) hooks() *bmcHooks {
 			case *ssa.Send, *ssa.Select:
 				return true
 			case *ssa.UnOp:
+				if in.Op == token.MUL && len(b.racy) > 0 {
+					if p, ok := m.get(fr, in.X).(*PtrV); ok && p.Obj != nil && p.SymIdx == nil && b.racy[cellKey(p.Obj, p.Path)] {
+						return true
+					}
+				}
 				return in.Op == token.ARROW
+			case *ssa.Store:
+				if len(b.racy) > 0 {
+					if p, ok := m.get(fr, in.Addr).(*PtrV); ok && p.Obj != nil && p.SymIdx == nil && b.racy[cellKey(p.Obj, p.Path)] {
+						return true
+					}
+				}
 			case *ssa.RunDefers:
 				if n := len(fr.defers); n > 0 {
 					if bi, ok := fr.defers[n-1].fn.(*ssa.Builtin); ok && bi.Name() == "close" {
@@ -413,7 +426,7 @@ func (b *bmcSys) hooks() *bmcHooks {
 					case "(*sync.WaitGroup).Add", "(*sync.WaitGroup).Done", "(*sync.WaitGroup).Wait", "time.Sleep", "verif.local/vrt.TrySend", "verif.local/vrt.Sleep":
 						return true
 					}
-					return false
+					return isAtomicModel(originOf(callee).String())
 				}
 				if fv, ok := m.get(fr, c.Value).(*FuncV); ok && fv != nil && fv.Fn == nil && fv.Builtin == "cancel" {
 					return true
@@ -530,7 +543,17 @@ func (b *bmcSys) intrinsic(m *Machine, name string, fn *ssa.Function, args []Val
 		if c.C == nil {
 			return &modelRes{v: f.BVC(64, 0)}
 		}
-		return &modelRes{v: b.intToBV(b.chanState(c.C).length)}
+		// 0 <= len <= cap: an ite chain over the possible lengths instead of int2bv
+		// (which z3 handles very poorly inside arithmetic)
+		ln := b.chanState(c.C).length
+		if ln.IsConst() {
+			return &modelRes{v: b.intToBV(ln)}
+		}
+		r := f.BVC(64, uint64(c.C.Cap))
+		for i := c.C.Cap - 1; i >= 0; i-- {
+			r = f.Ite(f.Eq(ln, f.IntC(int64(i))), f.BVC(64, uint64(i)), r)
+		}
+		return &modelRes{v: r}
 	case "verif.local/vrt.LibExited":
 		return &modelRes{v: b.libExited()}
 	case "verif.local/vrt.AllLibExited":
@@ -1025,7 +1048,15 @@ func (b *bmcSys) classify(m *Machine, l *bloc) {
 		l.arms = []arm{{send: true, ch: chanOf(in.Chan), x: in.X}}
 		l.block = true
 		l.desc = "send " + pos
+	case *ssa.Store:
+		l.kind = opStep
+		l.desc = "store to a shared cell " + pos
 	case *ssa.UnOp:
+		if in.Op == token.MUL {
+			l.kind = opStep
+			l.desc = "load of a shared cell " + pos
+			return
+		}
 		l.kind = opRecv
 		l.arms = []arm{{send: false, ch: chanOf(in.X)}}
 		l.commaOk = in.CommaOk
@@ -1096,6 +1127,11 @@ func (b *bmcSys) classify(m *Machine, l *bloc) {
 			}
 			if l.wgKey != "" {
 				b.wgVar(l.wgKey)
+			}
+			if isAtomicModel(originOf(callee).String()) {
+				l.kind = opStep
+				l.desc = "atomic." + originOf(callee).Name() + " " + pos
+				return
 			}
 			l.desc = originOf(callee).Name() + " " + pos
 			return
